@@ -13,7 +13,7 @@ from mzverif.core import Sub, call, require
 
 ID = "C20"
 LEVEL = "exploration"
-TECHNIQUE = "Hypothesis over mazes of the three kinds (square up to 13x13, wide and tall, int8..int64 paths), unit lengths 3..16, node values, extra true / predicted paths (revisiting cells), same-flags-other-shape twins plotted in one process; oracle = image blocks and strips read back from the Agg figure against the graph model, line / quiver artists against the listed cells, ASCII export against the independent renderer"
+TECHNIQUE = "Hypothesis over mazes of the three kinds (square up to 13x13, wide and tall, int8..int64 paths), unit lengths 3..16, node values, extra true / predicted paths (revisiting cells), same-flags-other-shape twins plotted in one process, the same plot object drawn again after its paths changed, path arrays reused by the caller before drawing; oracle = image blocks and strips read back from the Agg figure against the graph model, line / quiver artists against the listed cells, ASCII export against the independent renderer"
 RULE = (
     "case = (connection bits, kind, solution, unit_length 3..16, optional matrix of cell values, extra true / predicted paths as lists "
     "or arrays). Non-trivial = >= 1 connection, >= 1 wall and a plotted path with a turn; distinct by canonical case digest."
